@@ -15,6 +15,7 @@ import (
 
 // Gen is the loaded program plus contracts.
 type Gen struct {
+	guarded        map[string][2]string // heap var of guarded field -> (struct type key, lock field name)
 	typeInvQ       map[string][]*Clause
 	implOf         map[*ssa.Function]*Contract // concrete method -> interface contract it is checked against
 	typeInv        map[string]*ssa.Function    // typeKey -> invariant (heap dependent, re-assumed after unknown code)
@@ -231,6 +232,24 @@ func loadAll(repo string) (*Gen, error) {
 			t = types.NewPointer(t)
 		}
 		g.typeInv[typeKey(t)] = fn
+	}
+	g.guarded = map[string][2]string{}
+	{
+		tmp := newEmitter(g)
+		for _, gd := range cs.Guarded {
+			sp := g.pkgs[gd[0]]
+			j := strings.LastIndex(gd[1], ".")
+			k := strings.LastIndex(gd[2], ".")
+			if sp == nil || j < 0 || k < 0 {
+				continue
+			}
+			h, err := g.lookupField(tmp, sp, gd[1][:j], gd[1][j+1:])
+			if err != nil {
+				cs.Errors = append(cs.Errors, err.Error())
+				continue
+			}
+			g.guarded[h] = [2]string{gd[1][:j], gd[2][k+1:]}
+		}
 	}
 	g.typeInvQ = map[string][]*Clause{}
 	for _, cl := range cs.TypeInvQ {
